@@ -34,11 +34,11 @@ Files == {1, 2}
 Versions == 0..MaxEdits
 None == 99
 
-VARIABLES content, edits, timer, spawned, st, ver, wrote, lock, out, hist, watched
-vars == <<content, edits, timer, spawned, st, ver, wrote, lock, out, hist, watched>>
+VARIABLES content, prev, edits, timer, spawned, st, ver, wrote, lock, out, hist, watched
+vars == <<content, prev, edits, timer, spawned, st, ver, wrote, lock, out, hist, watched>>
 Regens == 1..MaxRegens
 
-Init == /\ content = 0 /\ edits = 0 /\ timer = FALSE
+Init == /\ content = 0 /\ prev = 0 /\ edits = 0 /\ timer = FALSE
         /\ spawned = 1                                   \* the regeneration at start-up
         /\ st = [r \in Regens |-> IF r = 1 THEN "spawned" ELSE "none"]
         /\ ver = [r \in Regens |-> None]
@@ -48,28 +48,33 @@ Init == /\ content = 0 /\ edits = 0 /\ timer = FALSE
         /\ hist = <<>>
         /\ watched = {"main"}
 
+\* a version number no earlier contents had: the highest one so far is always content or prev
+Fresh == (IF content > prev THEN content ELSE prev) + 1
 \* an edit in directory d changes the package; the watcher only hears of it if d is being watched
+\* (kind "restore": the edit puts back the contents the package had before the previous edit - a type removed and added again, an
+\* undo in the editor: the files to generate are then ones that were generated before, and may or may not still be on disk)
 Edit(k, d) == /\ edits < MaxEdits
-              /\ content' = content + 1 /\ edits' = edits + 1 /\ timer' = (timer \/ d \in watched)
-              /\ hist' = Append(hist, [a |-> "edit", kind |-> k, dir |-> d, valid |-> (content + 1) \notin Invalid])
+              /\ content' = (IF k = "restore" THEN prev ELSE Fresh) /\ prev' = content
+              /\ edits' = edits + 1 /\ timer' = (timer \/ d \in watched)
+              /\ hist' = Append(hist, [a |-> "edit", kind |-> k, dir |-> d, valid |-> content' \notin Invalid])
               /\ UNCHANGED <<spawned, st, ver, wrote, lock, out, watched>>
 
 \* a file-system event that changes nothing (attribute change, the second of the two events of one save, an editor's temporary file)
 \* (bounded so that the regenerations still owed to the remaining edits always fit into MaxRegens)
 Touch == /\ ~timer /\ spawned + 1 + (MaxEdits - edits) <= MaxRegens - 1 /\ timer' = TRUE
-         /\ UNCHANGED <<content, edits, spawned, st, ver, wrote, lock, out, hist, watched>>
+         /\ UNCHANGED <<content, prev, edits, spawned, st, ver, wrote, lock, out, hist, watched>>
 
 TimerFire == /\ timer /\ spawned < MaxRegens
              /\ timer' = FALSE /\ spawned' = spawned + 1
              /\ st' = [st EXCEPT ![spawned + 1] = "spawned"]
-             /\ UNCHANGED <<content, edits, ver, wrote, lock, out, hist, watched>>
+             /\ UNCHANGED <<content, prev, edits, ver, wrote, lock, out, hist, watched>>
 
 Acquire(r) == /\ st[r] = "spawned"
               /\ CASE Mode = "concurrent" -> st' = [st EXCEPT ![r] = "running"] /\ UNCHANGED lock
                    [] Mode = "serialized" -> lock = 0 /\ lock' = r /\ st' = [st EXCEPT ![r] = "running"]
                    [] Mode = "trylock" -> IF lock = 0 THEN lock' = r /\ st' = [st EXCEPT ![r] = "running"]
                                           ELSE st' = [st EXCEPT ![r] = "done"] /\ UNCHANGED lock
-              /\ UNCHANGED <<content, edits, timer, spawned, ver, wrote, out, hist, watched>>
+              /\ UNCHANGED <<content, prev, edits, timer, spawned, ver, wrote, out, hist, watched>>
 
 Release(r) == IF lock = r THEN lock' = 0 ELSE UNCHANGED lock
 HeldBefore(r) == Cardinality({ q \in Regens : q < r /\ st[q] = "read" /\ wrote[q] = 0 })
@@ -80,18 +85,18 @@ Read(r) == /\ st[r] = "running"
                      /\ watched' = IF WatchDirs \in {"always", "rearm"} THEN Dirs ELSE watched
                      /\ timer' = (timer \/ (WatchDirs = "rearm" /\ watched # Dirs))
                 ELSE st' = [st EXCEPT ![r] = "read"] /\ ver' = [ver EXCEPT ![r] = content] /\ UNCHANGED <<lock, watched, timer>>
-           /\ UNCHANGED <<content, edits, spawned, wrote, out, hist>>
+           /\ UNCHANGED <<content, prev, edits, spawned, wrote, out, hist>>
 
 Write(r) == /\ st[r] = "read" /\ wrote[r] < Cardinality(Files)
             /\ out' = [out EXCEPT ![wrote[r] + 1] = ver[r]]
             /\ wrote' = [wrote EXCEPT ![r] = wrote[r] + 1]
             /\ hist' = IF wrote[r] = 0 THEN Append(hist, [a |-> "release", rank |-> HeldBefore(r)]) ELSE hist
-            /\ UNCHANGED <<content, edits, timer, spawned, st, ver, lock, watched>>
+            /\ UNCHANGED <<content, prev, edits, timer, spawned, st, ver, lock, watched>>
 
 End(r) == /\ st[r] = "read" /\ wrote[r] = Cardinality(Files)
           /\ st' = [st EXCEPT ![r] = "done"] /\ Release(r) /\ watched' = Dirs
           /\ timer' = (timer \/ (WatchDirs = "rearm" /\ watched # Dirs))
-          /\ UNCHANGED <<content, edits, spawned, ver, wrote, out, hist>>
+          /\ UNCHANGED <<content, prev, edits, spawned, ver, wrote, out, hist>>
 
 Next == \/ \E k \in Kinds, d \in Dirs : Edit(k, d)
         \/ TimerFire \/ Touch
@@ -112,5 +117,5 @@ EventuallyDrained == <>[]Drained
 
 \* schedules for the harness: the visible choices of every complete behaviour
 ExportSchedules == Quiescent => PrintT(<<"CASE", ToJson([hist |-> hist, converged |-> (content \in Invalid \/ \A f \in Files : out[f] = content)])>>)
-View == <<content, edits, timer, spawned, st, ver, wrote, lock, out, watched>>
+View == <<content, prev, edits, timer, spawned, st, ver, wrote, lock, out, watched>>
 ==============================================================================
